@@ -72,7 +72,7 @@ func c18EarlyExits(emit func(core.Case)) {
 		}
 		return cnt
 	}
-	for _, kind := range []string{"public-name-too-long", "public-name-ok"} {
+	for _, kind := range []string{"public-name-too-long", "public-name-ok", "no-target-of-that-family"} {
 		d := &ech.Dialer[*fakeTLS]{MaxConcurrency: 2, ConcurrencyDelay: time.Millisecond, Timeout: time.Second}
 		d.DialFunc = func(ctx context.Context, network, a string, tc *tls.Config) (*fakeTLS, error) {
 			return nil, errors.New("scripted dial error")
@@ -84,10 +84,14 @@ func c18EarlyExits(emit func(core.Case)) {
 		case "public-name-ok":
 			d.PublicName = "public.example"
 		}
+		network := "tcp"
+		if kind == "no-target-of-that-family" {
+			network = "tcp6" // IPv4 literals only: the outcome is "no address", an error
+		}
 		before := dialGoroutines()
 		errs := 0
 		for i := 0; i < 10; i++ {
-			if _, err := d.Dial(context.Background(), "tcp", addr, nil); err != nil {
+			if _, err := d.Dial(context.Background(), network, addr, nil); err != nil {
 				errs++
 			}
 		}
@@ -96,6 +100,9 @@ func c18EarlyExits(emit func(core.Case)) {
 		w := ""
 		if after > before {
 			w = fmt.Sprintf("%d calls of Dial (%s) have returned (%d with an error), %d goroutines of Dial are still there", 10, kind, errs, after-before)
+		}
+		if errs != 10 && w == "" {
+			w = fmt.Sprintf("Dial (%s) cannot have produced a connection, but %d of 10 calls returned without an error", kind, 10-errs)
 		}
 		emit(core.Case{Name: "early-exit/" + kind, Stream: "early-exit", Key: "early-exit/" + kind, Sig: "early-exit/" + kind,
 			Ops:    []core.Op{{Kind: 'X', Note: "no goroutine of Dial outlives the call, whichever way the call ends", Want: w}},
